@@ -193,6 +193,22 @@ class LineFileBase(SeqProp):
                         f.remove(wrap(dec_str(w[1]))); out.append("ok")
                     elif k == "reverse":
                         f.reverse(); out.append("ok")
+                    elif k == "index":
+                        # index <s> [<start>|- [<stop>|-]] : `-` = the bound is not given
+                        args = [wrap(dec_str(w[1]))]
+                        if len(w) >= 3:
+                            args.append(0 if w[2] == "-" else int(w[2]))
+                        if len(w) >= 4 and w[3] != "-":
+                            args.append(int(w[3]))
+                        out.append(f"ret {f.index(*args)}")
+                    elif k == "count":
+                        out.append(f"ret {f.count(wrap(dec_str(w[1])))}")
+                    elif k == "has":
+                        out.append(f"ret {1 if wrap(dec_str(w[1])) in f else 0}")
+                    elif k == "rev":
+                        out.append("list " + strs(unwrap(x) for x in reversed(f)))
+                    elif k == "clear":
+                        f.clear(); out.append("ok")
                     elif k == "dirty":
                         out.append(f"ret {1 if f.dirty else 0}")
                     elif k == "lines":
@@ -280,6 +296,24 @@ class LineFileBase(SeqProp):
                     opened = False; exp = "ok"
                 elif k == "len":
                     exp = f"ret {len(ref)}"
+                elif k in ("index", "count", "has", "rev", "clear") and not opened:
+                    exp = None  # which of RuntimeError / ValueError / an empty answer a closed file gives is the model's business
+                elif k == "index":
+                    args = [dec_str(w[1])]
+                    if len(w) >= 3:
+                        args.append(0 if w[2] == "-" else int(w[2]))
+                    if len(w) >= 4 and w[3] != "-":
+                        args.append(int(w[3]))
+                    exp = f"ret {ref.index(*args)}"
+                elif k == "count":
+                    exp = f"ret {ref.count(dec_str(w[1]))}"
+                elif k == "has":
+                    exp = f"ret {1 if dec_str(w[1]) in ref else 0}"
+                elif k == "rev":
+                    exp = "list " + strs(reversed(ref))
+                elif k == "clear":
+                    dirty = dirty or len(ref) > 0
+                    ref.clear(); exp = "ok"
                 elif k in ("get", "slice", "sel", "lines", "iter_next", "pop", "remove", "save") and not opened \
                         and not (k == "iter_next" and iters[int(w[1])][0]):
                     exp = "err RuntimeError"
@@ -457,7 +491,14 @@ class C11Prop(LineFileBase):
             for _ in range(rng.randint(3, 25)):
                 q = rng.random()
                 ri = lambda: rng.randint(-nl - 2, nl + 1)
-                if q < 0.3:
+                if q < 0.04:
+                    # the inherited Sequence interface (Model/LineFileSeq.lean): a line of the file or a foreign string
+                    ls = ref_lines(content)
+                    probe = enc_str(rng.choice(ls) if ls and rng.random() < 0.7 else rng.choice(["", "no such line", "a"]))
+                    b = lambda: rng.choice(["-", str(ri())])
+                    body.append(rng.choice([f"index {probe}", f"index {probe} {b()}", f"index {probe} {b()} {b()}", f"count {probe}",
+                                            f"has {probe}", "rev"]))
+                elif q < 0.3:
                     body.append(f"get {ri()}")
                 elif q < 0.42:
                     sl = [rng.choice(["-", str(ri())]), rng.choice(["-", str(ri())]), rng.choice(["-", "-", "1", "2", "-1", "-2", "0"])]
@@ -548,6 +589,12 @@ class C12Prop(LineFileBase):
                     body.append(f"remove {s}")
                 elif q < 0.6:
                     body.append("reverse")
+                elif q < 0.63:
+                    # the inherited Sequence / MutableSequence interface (Model/LineFileSeq.lean)
+                    b = lambda: rng.choice(["-", str(ri())])
+                    body.append(rng.choice([f"index {s}", f"index {s} {b()}", f"index {s} {b()} {b()}", f"count {s}", f"has {s}", "rev"]))
+                elif q < 0.64:
+                    body.append("clear"); cur = 0
                 elif q < 0.72:
                     body.append(f"get {ri()}")
                 elif q < 0.78:
